@@ -4,6 +4,7 @@ For every property: the functions whose body-vs-contract refinement it depends o
 kinds that matter to it), the lemmas over the contracts, and special jobs.  An obligation counts for
 a property when its job is listed and its name matches one of the property's selectors.
 """
+import os
 import re
 
 F = "FileHashStore."
@@ -274,9 +275,8 @@ QUICK_FAULT = ["tag_object: pid already bound to the requested cid",
                "store_object: duplicate content, additional pid"]
 
 
-# start states added for one property's clause only (the other fault clauses have not been
-# established for them on the unchanged tree)
-FAULT_ONLY_FOR = {"delete_object: references without the data object": {"C08"}}
+# start states added for the listed properties' clauses only (quick tier)
+FAULT_ONLY_FOR = {"delete_object: references without the data object": {"C08", "C13"}}
 
 # heavy jobs are split into 2**bits shards (each follows one side of the first `bits` forks)
 SHARD_BITS = {
@@ -340,7 +340,8 @@ def _jobs_for(prop, all_fn_jobs, tier="quick"):
     if spec.get("fault"):
         from props import scenarios
         names = list(scenarios.SCENARIOS) if tier == "thorough" else QUICK_FAULT
-        names = [n for n in names if n not in FAULT_ONLY_FOR or prop in FAULT_ONLY_FOR[n]]
+        if not os.environ.get("VERIF_FAULT_ALL_STATES"):      # experiments only
+            names = [n for n in names if n not in FAULT_ONLY_FOR or prop in FAULT_ONLY_FOR[n]]
         # the heaviest jobs first so that the pool finishes sooner
         names = sorted(names, key=lambda n: (not n.startswith("store_object"), n))
         out = [("fault", n, m) for n in names for m in ("persistent", "one-off")] + out
